@@ -230,6 +230,11 @@ class Opaque:
         return f"Opaque({self.what})"
 
 
+class MaybeUninitV:
+    """uninitialised memory behind Box::new_uninit: the MaybeUninit/ManuallyDrop wrappers are transparent"""
+    __slots__ = ()
+
+
 class Lazy:
     """symbolic ADT input; template = (variant, child values) shared by all copies"""
     __slots__ = ('ty', 'name', 'depth', 'template')
@@ -487,6 +492,7 @@ class Exec:
         self.ascii_syms = []
         self.statics = {}
         self.path_statics = {}
+        self.stack = []
 
     # ---- decisions
     def choose(self, n, label):
@@ -722,6 +728,9 @@ class Exec:
         return self._child(parent, path[k - 1])
 
     def store_path(self, cell, path, val):
+        if isinstance(cell.v, MaybeUninitV):
+            cell.v = val
+            return
         k = len(path)
         while k > 0 and path[k - 1][0] == 'd':
             k -= 1
@@ -761,6 +770,8 @@ class Exec:
                     cell, path = v.cell, list(v.path)
                 elif isinstance(v, BoxV):
                     cell, path = v.cell, []
+                elif isinstance(v, (StrRef, SliceRef)):
+                    cell, path = Cell(v), []
                 else:
                     r = self.M.deref_of(self, v)
                     if r is NotImplemented:
@@ -843,7 +854,11 @@ class Exec:
         if kk[0] == 'fndef':
             return FnDefV(tid)
         if kk[0] == 'closure':
-            return ClosureV(tid, [])
+            up = self.p.ty(tid).get('upvars')
+            caps = []
+            if up is not None and self.p.kind(up)[0] == 'tuple':
+                caps = [self.zst(t) for t in self.p.kind(up)[1]]
+            return ClosureV(tid, caps)
         if kk[0] == 'adt':
             adt = self.p.ty(tid)['adt']
             if adt['kind'] == 'Enum':
@@ -1010,6 +1025,8 @@ class Exec:
             if isinstance(v, (Adt, Tup, Arr)):
                 return deep(v)
             return v
+        if 'RuntimeChecks' in op:
+            return False
         return self.const_val(op['Constant'])
 
     # ---- arithmetic
@@ -1314,20 +1331,24 @@ class Exec:
             self.models_used.add(m.__name__ + ':' + name.split('<')[0][:60] if False else m.__name__)
             return m(self, name, args, f)
         if 'body' not in f:
+            # tuple-variant / tuple-struct constructors used as functions
+            rt = f.get('abi_ret')
+            if rt is not None and self.p.kind(rt)[0] == 'adt':
+                last = name.rsplit('::', 1)[-1]
+                adt = self.p.ty(rt)['adt']
+                for vi, var in enumerate(adt['variants']):
+                    if var['name'].rsplit('::', 1)[-1] == last and len(var['fields']) == len(args):
+                        return Adt(rt, vi, list(args))
             self.unmodelled[name] = self.unmodelled.get(name, 0) + 1
             raise Unsupported(f"no body and no model: {name}")
         if f.get('spread_arg') is not None:
-            # closure-call ABI: last argument is a tuple that is spread
+            # rust-call ABI with a spread argument: last argument is a tuple that is spread
             n = f['arg_count']
             if len(args) != n and len(args) == 2 and isinstance(args[1], Tup):
                 args = [args[0]] + list(args[1].fields)
-        elif '{closure' in name and len(args) == 2 and isinstance(args[1], Tup) and f['arg_count'] == 1 + len(args[1].fields) and f['arg_count'] != 2:
+        elif is_closure_body(name) and len(args) == 2 and isinstance(args[1], Tup) and f['arg_count'] == 1 + len(args[1].fields):
+            # closure bodies are reached from MIR only through the Fn* traits (rust-call ABI: (self, (args..)))
             args = [args[0]] + list(args[1].fields)
-        elif '{closure' in name and len(args) == 2 and f['arg_count'] == 2 and isinstance(args[1], Tup) and len(args[1].fields) == 1 \
-                and self.p.kind(f['locals'][2])[0] != 'tuple':
-            args = [args[0], args[1].fields[0]]
-        elif '{closure' in name and len(args) == 2 and f['arg_count'] == 1 and isinstance(args[1], Tup) and not args[1].fields:
-            args = [args[0]]
         return self.run_body(f, args)
 
     def call_value(self, fv, args):
@@ -1383,9 +1404,22 @@ class Exec:
             self.call_depth -= 1
             raise Truncated(f"call depth > {self.max_call_depth} in {f['name']}")
         self.encoded.add(f['name'])
+        self.stack.append(f['name'])
         try:
             return self._run(frame, f, body)
+        except Unsupported as e:
+            if not getattr(e, 'located', False):
+                e.located = True
+                e.args = (f"{e.args[0]} [in {' <- '.join(x[:90] for x in self.stack[-1:-6:-1])}]",)
+            raise
+        except (IndexError, KeyError, AttributeError, TypeError, AssertionError, z3.Z3Exception) as e:
+            import traceback
+            tb = traceback.extract_tb(e.__traceback__)[-1]
+            u = Unsupported(f"internal {type(e).__name__}: {e} at {tb.filename.rsplit('/', 1)[-1]}:{tb.lineno} [in {' <- '.join(x[:90] for x in self.stack[-1:-6:-1])}]")
+            u.located = True
+            raise u
         finally:
+            self.stack.pop()
             self.call_depth -= 1
 
     def _run(self, frame, f, body):
@@ -1445,8 +1479,8 @@ class Exec:
                 if isinstance(d, bool):
                     d = 1 if d else 0
                 if isinstance(d, int):
-                    dty = self.operand_ty(f, sw['discr'])
-                    kk = self.p.kind(dty)
+                    dty = self.operand_ty(f, sw['discr']) if 'RuntimeChecks' not in sw['discr'] else None
+                    kk = self.p.kind(dty) if dty is not None else ('bool',)
                     du = d & ((1 << kk[1]) - 1) if kk[0] == 'int' else d
                     for val, target in tg['branches']:
                         if val == du:
@@ -1518,6 +1552,7 @@ class Exec:
             self.io_trace = []
             self.ghost = {}
             self.path_statics = {}
+            self.stack = []
             self.solver.push()
             try:
                 try:
@@ -1536,6 +1571,11 @@ class Exec:
             finally:
                 self.solver.pop()
         return results
+
+
+def is_closure_body(name):
+    last = name.rsplit('::', 1)[-1]
+    return last.startswith('{closure#') or last.startswith('{closure@')
 
 
 class PathResult:
